@@ -266,3 +266,5 @@ def run(run, tier, loadcfg):
         check_sqrt_placement(run, cx, cfg)
         check_reset_new(run, cx, cfg)
         check_sqrt(run, cx, cfg)
+        from rules import C06
+        C06.check_used(run, cx, cfg, [b for b in fx_.bodies.values() if b['crate'] == 'dasp_rms'], 5)
